@@ -276,4 +276,46 @@ def hPathItemChain : Heap :=
     comps := [],
     paths := [0, 1, 2] }
 
+/-- corpus/C16/same-name-response-then-request-body.json -/
+def hSameName : Heap :=
+  { root := some ("openapi.json".toList), hasComp := true, validBefore := true,
+    cells := #[{ k := "responses".toList, ref := "common.json#/components/responses/Item".toList, refPath := some ("common.json".toList, "/components/responses/Item".toList), val := 0 },
+      { k := "requestBodies".toList, ref := "common.json#/components/requestBodies/Item".toList, refPath := some ("common.json".toList, "/components/requestBodies/Item".toList), val := 1 },
+      { k := "schemas".toList, ref := "".toList, refPath := none, val := 2 },
+      { k := "responses".toList, ref := "".toList, refPath := none, val := 3 }],
+    vals := #[{ t := "R", cc := "eb9a65d3c796", ch := [], schema := (-1), content := [], headers := [], links := [], items := [], pex := [], dmap := [] },
+      { t := "B", cc := "cbde40721be9", ch := [], schema := (-1), content := [{ schema := 2, ex := [], enc := [] }], headers := [], links := [], items := [], pex := [], dmap := [] },
+      { t := "S", cc := "740dfc6ffed1", ch := [], schema := (-1), content := [], headers := [], links := [], items := [], pex := [], dmap := [] },
+      { t := "R", cc := "015ecbdfa895", ch := [], schema := (-1), content := [], headers := [], links := [], items := [], pex := [], dmap := [] }],
+    pis := #[{ ref := "".toList, params := [], ops := [{ rb := (-1), cbs := [], resps := [0], params := [] }] },
+      { ref := "".toList, params := [], ops := [{ rb := 1, cbs := [], resps := [3], params := [] }] }],
+    comps := [],
+    paths := [0, 1] }
+
+/-- corpus/C16/media-type-without-schema.json -/
+def hNoSchemaMT : Heap :=
+  { root := some ("openapi.json".toList), hasComp := true, validBefore := true,
+    cells := #[{ k := "requestBodies".toList, ref := "".toList, refPath := none, val := 0 },
+      { k := "headers".toList, ref := "h.json".toList, refPath := some ("h.json".toList, "".toList), val := 1 },
+      { k := "schemas".toList, ref := "".toList, refPath := none, val := 2 },
+      { k := "examples".toList, ref := "ex.json".toList, refPath := some ("ex.json".toList, "".toList), val := 3 },
+      { k := "responses".toList, ref := "".toList, refPath := none, val := 4 }],
+    vals := #[{ t := "B", cc := "d110250d5a20", ch := [], schema := (-1), content := [{ schema := (-1), ex := [], enc := [[1]] }, { schema := (-1), ex := [3], enc := [] }], headers := [], links := [], items := [], pex := [], dmap := [] },
+      { t := "P", cc := "a12438d408d7", ch := [], schema := 2, content := [], headers := [], links := [], items := [], pex := [], dmap := [] },
+      { t := "S", cc := "ef3d780d6441", ch := [], schema := (-1), content := [], headers := [], links := [], items := [], pex := [], dmap := [] },
+      { t := "X", cc := "41ab5e0b7852", ch := [], schema := (-1), content := [], headers := [], links := [], items := [], pex := [], dmap := [] },
+      { t := "R", cc := "015ecbdfa895", ch := [], schema := (-1), content := [], headers := [], links := [], items := [], pex := [], dmap := [] }],
+    pis := #[{ ref := "".toList, params := [], ops := [{ rb := 0, cbs := [], resps := [4], params := [] }] }],
+    comps := [],
+    paths := [0] }
+
+/-- corpus/C16/path-item-file-chain.json -/
+def hPathItemFileChain : Heap :=
+  { root := some ("openapi.json".toList), hasComp := true, validBefore := true,
+    cells := #[{ k := "responses".toList, ref := "r.json".toList, refPath := some ("sub/r.json".toList, "".toList), val := 0 }],
+    vals := #[{ t := "R", cc := "535da5fc959b", ch := [], schema := (-1), content := [], headers := [], links := [], items := [], pex := [], dmap := [] }],
+    pis := #[{ ref := "p1.json".toList, params := [], ops := [{ rb := (-1), cbs := [], resps := [0], params := [] }] }],
+    comps := [],
+    paths := [0] }
+
 end KinModel.Internalize.Heaps
